@@ -241,6 +241,32 @@ def bbox_rows_case(seed):
                 out.append(('additive_over_rows_on_each_rows_own_bounding_box_window', sig, {'rows': rows, 'max_abs_diff': float(np.max(np.abs(full - singles)))}))
             elif not np.allclose(full, rev, rtol=1e-12, atol=1e-12):
                 out.append(('row_order_invariant', sig, {'rows': rows, 'max_abs_diff': float(np.max(np.abs(full - rev)))}))
+    # a position-dependent PSF (GriddedPSFModel on a 3 x 5 reference grid): every row is rendered with the blend of ITS cell, whatever was
+    # rendered before it - the image equals the sum of single-row images made with fresh model objects, in any row order
+    from astropy.nddata import NDData
+    from photutils.psf import GriddedPSFModel
+    gxs, gys = [0.0, 23.0, 46.0], [0.0, 10.0, 20.0, 30.0, 40.0]
+    yy, xx = np.mgrid[:9, :9]
+    def mkgrid():
+        arrs, xy = [], []
+        for j, gy_ in enumerate(gys):
+            for i, gx_ in enumerate(gxs):
+                arrs.append(np.exp(-0.5 * (((xx - 4) / (1.0 + 0.25 * i)) ** 2 + ((yy - 4) / (1.0 + 0.15 * j)) ** 2)) * (1.0 + 0.1 * i + 0.03 * j))
+                xy.append((gx_, gy_))
+        return GriddedPSFModel(NDData(np.array(arrs), meta={'grid_xypos': xy, 'oversampling': 1}))
+    grows = [dict(x=rng.uniform(1, 45), y=rng.uniform(1, 39), f=rng.uniform(50, 300)) for _ in range(rng.randint(2, 5))]
+    gtab = lambda rs: Table({'x_0': [r['x'] for r in rs], 'y_0': [r['y'] for r in rs], 'flux': [r['f'] for r in rs]})  # noqa
+    try:
+        gfull = make_model_image(shape, mkgrid(), gtab(grows), model_shape=(9, 9))
+        gsing = sum(make_model_image(shape, mkgrid(), gtab([r]), model_shape=(9, 9)) for r in grows)
+        grev = make_model_image(shape, mkgrid(), gtab(grows[::-1]), model_shape=(9, 9))
+        gsig = {'kind': 'gridded_rows', 'nrows': len(grows)}
+        if not np.allclose(gfull, gsing, rtol=1e-12, atol=1e-12):
+            out.append(('position_dependent_psf_rows_are_rendered_independently', gsig, {'rows': grows, 'max_abs_diff': float(np.max(np.abs(gfull - gsing)))}))
+        elif not np.allclose(gfull, grev, rtol=1e-12, atol=1e-12):
+            out.append(('row_order_invariant', gsig, {'rows': grows, 'max_abs_diff': float(np.max(np.abs(gfull - grev)))}))
+    except Exception as e:  # noqa
+        out.append(('raises', {'kind': 'gridded_rows'}, {'exc': repr(e)}))
     # make_psf_model_image builds on make_model_image: the image it returns is the model image of the table it returns
     from photutils.psf import make_psf_model_image
     ms = rng.choice([(9, 9), (7, 11), (5, 5)])      # (without model_shape the function takes ONE window from the template model's bounding box: another rule)
@@ -283,10 +309,14 @@ def psfphot_pairs(seed):
         'iter_new': lambda: IterativePSFPhotometry(CircularGaussianPRF(fwhm=3.2), (7, 7), DAOStarFinder(30, 3.2), localbkg_estimator=LocalBackground(6, 10), aperture_radius=4, maxiters=1 + seed % 2, mode='new'),
         'iter_all': lambda: IterativePSFPhotometry(CircularGaussianPRF(fwhm=3.2), (7, 7), DAOStarFinder(30, 3.2), grouper=SourceGrouper(8), localbkg_estimator=LocalBackground(6, 10), aperture_radius=4, maxiters=2, mode='all'),
     }
+    def _free():
+        mfree = CircularGaussianPRF(fwhm=2.7); mfree.fwhm.fixed = False      # the width is fitted per source (the scene has 3.2)
+        return PSFPhotometry(mfree, (7, 7), grouper=SourceGrouper(8), localbkg_estimator=LocalBackground(6, 10), aperture_radius=4)
+    kinds['psf_free_width'] = _free
     for kind, mk in kinds.items():
         for order in ((True, False), (False, True), (False, False)):
             ph = mk()
-            res = ph(data, init_params=init if kind == 'psf' else None)
+            res = ph(data, init_params=init if kind.startswith('psf') else None)
             if res is None:
                 continue
             sig = {'obj': kind, 'order': list(order)}
@@ -300,6 +330,8 @@ def psfphot_pairs(seed):
                 t['x_0'] = res['x_fit']; t['y_0'] = res['y_fit']; t['flux'] = res['flux_fit']
                 if inc:
                     t['local_bkg'] = res['local_bkg']
+                if 'fwhm_fit' in res.colnames:      # every fitted parameter of a row belongs to its model
+                    t['fwhm'] = res['fwhm_fit']
                 ref = make_model_image(shape, CircularGaussianPRF(fwhm=3.2), t, model_shape=ps)
                 if not np.allclose(mi, ref, rtol=1e-9, atol=1e-9):
                     out.append(('psfphot_model_image_is_superposition_of_fit_results', dict(sig, call=j, include_localbkg=inc),
